@@ -163,6 +163,14 @@ fn run_inner(id: &str) -> Option<(bool, String)> {
             let o = catch_unwind(|| rbpf::disassembler::to_insn_vec(&p).len());
             (o.is_err(), format!("to_insn_vec on `ja -0x8000; exit`: expected 2 entries, got {:?}", o.ok()))
         }
+        "asm-literal-panics" => {
+            let texts = ["mov r0, 0x10000000000000000", "mov r0, 9223372036854775808", "lddw r0, -0x8000000000000000", "mov r99999999999999999999, 1"];
+            let mut bad = vec![];
+            for t in texts {
+                if catch_unwind(|| rbpf::assembler::assemble(t).is_ok()).is_err() { bad.push(t); }
+            }
+            (!bad.is_empty(), format!("assemble() must return Ok or Err; it panicked on {:?}", bad))
+        }
         _ => return None,
     })
 }
